@@ -140,8 +140,11 @@ class Ctx:
         ev = dict(property_id=self.pid, tier=self.tier, seed=self.seed, level=self.level,
                   coverage=cov, assumptions=self.assumptions, wall_s=round(wall, 2),
                   violations=len(self.violations))
-        os.makedirs(os.path.join(ROOT, "evidence"), exist_ok=True)
-        with open(os.path.join(ROOT, "evidence", "%s.json" % self.pid), "w") as f:
+        # evidence describes /repo itself: a run against a scratch copy (VERIF_REPO, used by
+        # tools/seedcheck.sh and tools/mutcheck.sh) leaves it alone and writes next to the copy
+        evdir = os.path.join(ROOT, "evidence") if "VERIF_REPO" not in os.environ else os.path.join(REPO, "..", "evidence")
+        os.makedirs(evdir, exist_ok=True)
+        with open(os.path.join(evdir, "%s.json" % self.pid), "w") as f:
             json.dump(ev, f, indent=1, default=str)
         for sig, what in sorted(self.known_hits.items()):
             print("KNOWN-FINDING: property=%s %s [%s]" % (self.pid, what, sig))
